@@ -1,5 +1,6 @@
 """Registry: property id -> check function(res, tier, seed, replay)."""
-import p_mcb
+import p_mcb, p_comp
 REGISTRY = {}
 LEVEL = {}
 REGISTRY.update(p_mcb.REGISTRY)
+REGISTRY.update(p_comp.REGISTRY)
